@@ -9,7 +9,7 @@ mkdir -p "$dst"
 wt=$(mktemp -d /tmp/confirm.XXXXXX); rmdir "$wt"
 git -C /repo worktree add -q --detach "$wt" HEAD || exit 2
 log="$dst/confirm.log"; : > "$log"
-cmd=$(python3 -c "import json,sys;print(json.load(open('$src/out/$mk/meta.json'))['demo_cmd'])")
+cmd=$(python3 -c "import json,sys;print(json.load(open('$src/out/$mk/meta.json'))['demo_cmd'].split('   (')[0].split('  (equivalently')[0])")
 mkdir -p "$wt/out"; cp -r "$src/out/$mk" "$wt/out/$mk"; [ -f "$src/out/go.mod" ] && cp "$src/out/go.mod" "$wt/out/go.mod"
 cd "$wt"
 echo "== demo on clean tree: $cmd" >> "$log"
